@@ -160,7 +160,7 @@ theorem update3_decomp (f : List ℝ → ℝ) (w : W ℝ) (params : PList ℝ)
             simp only [] at hc hcc
             cases e with
             | some e => exact .raised (by simp)
-            | none => exact .finished cl.w lp.lastVar true ((r1.trans hl).trans hc) (hcf0.trans hcc) rfl
+            | none => exact .finished cl.w lp.lastVar true ((r1.trans hl).trans (hc.2 rfl)) (hcf0.trans hcc) rfl
         · exact .finished lp.w lp.lastVar false (r1.trans hl) hcf0 rfl
 
 theorem update5_decomp (f : List ℝ → ℝ) (w : W ℝ) (params : PList ℝ)
